@@ -158,9 +158,8 @@ vfps::makePSFromTXT( const std::string& fname
     ifs.clear();
     ifs.seekg(0,ifs.beg);
 
-    while (ifs.good()) {
-        float xf,yf;
-        ifs >> xf >> yf;
+    float xf,yf;
+    while (ifs >> xf >> yf) {
         meshindex_t x = std::lround((xf/qmax+0.5f)*ps_size);
         meshindex_t y = std::lround((yf/pmax+0.5f)*ps_size);
         if (x < ps_size && y < ps_size) {
